@@ -252,7 +252,7 @@ int main(void) {
 		int n = sscanf(line, "%31s %lld %lld %lld %lld %lld %lld", op, &a[0], &a[1], &a[2], &a[3], &a[4], &a[5]);
 		if (n < 1) continue;
 		vh_set_tag(line);
-		alarm(120);
+		vh_watchdog(3, 30); /* a line costs about a millisecond of CPU time (a 4000-call random history included): 3 s of it (30 s of wall clock) without an answer = the code under test does not terminate */
 		if (!strcmp(op, "new") && n >= 6) do_new((size_t)a[0], (size_t)a[1], (size_t)a[2], (size_t)a[3], a[4]);
 		else if (!rb) { printf("{\"error\":\"no ring\"}\n"); }
 		else if (!strcmp(op, "get")) do_get((size_t)a[0]);
